@@ -149,7 +149,7 @@ var stats struct {
 }
 
 var cur *jobResult
-var funcsSeen = map[string]bool{}
+var funcsSeen = map[*ssa.Function]bool{}
 
 // ---------- C13 monitors ----------
 
@@ -668,6 +668,15 @@ func runJob(j job) *jobResult {
 		res.SyncUses = append(res.SyncUses, u)
 	}
 	sort.Strings(res.SyncUses)
+	for f := range funcsSeen {
+		n := f.String()
+		n = strings.TrimPrefix(n, modPath+"/")
+		if !strings.Contains(n, ".v") && !strings.Contains(n, ".VH_") && !strings.Contains(n, "$") {
+			res.Funcs = append(res.Funcs, n)
+		}
+	}
+	sort.Strings(res.Funcs)
+	funcsSeen = map[*ssa.Function]bool{}
 	res.Goroutines = goSpawned
 	goSpawned = 0
 	res.SortAssumed = sortAssumed
